@@ -346,6 +346,87 @@ theorem pres_tupStep {ev : XExpr → XM XLoc} (hev : ∀ e, Pres (ev e)) : ∀ a
       · exact Pres.fail _
       · exact Pres.bind (pres_takeArg x) (fun v => pres_tupStep hev as _)
 
+theorem pres_biArgs {ev : XExpr → XM XLoc} (hev : ∀ e, Pres (ev e)) : ∀ as acc, Pres (biArgs ev as acc)
+  | [], acc => by simp only [biArgs]; exact Pres.pure _
+  | a :: as, acc => by
+    simp only [biArgs]
+    exact Pres.bind (hev a) (fun x => Pres.bind pres_logLen (fun n => pres_biArgs hev as _))
+
+theorem pres_biHeld : ∀ xn, Pres (biHeld xn)
+  | [] => by simp only [biHeld]; exact Pres.pure _
+  | (x, n) :: rest => by
+    simp only [biHeld]
+    exact Pres.bind (pres_checkHeld x n) (fun _ => pres_biHeld rest)
+
+theorem pres_xgets : ∀ xs, Pres (xgets xs)
+  | [] => by simp only [xgets]; exact Pres.pure _
+  | x :: rest => by
+    simp only [xgets]
+    exact Pres.bind (pres_xget x) (fun c => Pres.bind (pres_xgets rest) (fun vs => Pres.pure _))
+
+/-- every placement combinator of the built-ins respects the frame: it writes a cell only after having read its flag as
+clear, which under `FlagInv` makes it a pool slot (`pres_xlval1`, `pres_xlval2`) -/
+theorem pres_xplaceBi (p : BiPlace) (v : Val) (xs : List XLoc) : Pres (xplaceBi p v xs) := by
+  unfold xplaceBi
+  split
+  · exact Pres.pure _
+  · exact pres_xalloc _
+  · exact pres_xlval1 _ _
+  · exact pres_xlval2 _ _ _
+  · exact Pres.fail _
+
+/-- LVAL1 leaves the lists of variable slots and constant nodes IDENTICAL (whole cells) and logs nothing: the only
+cell it may write was read with a clear flag, hence is a pool slot. -/
+theorem xlval1_same (v : Val) (a : XLoc) (s s' : XS) (x : XLoc) (hi : FlagInv s.st) (h : xlval1 v a s = .ok (x, s')) :
+    s'.st.vars = s.st.vars ∧ s'.st.csts = s.st.csts ∧ s'.log = s.log := by
+  simp only [xlval1] at h
+  cases hg : s.st.getX a with
+  | none => rw [hg] at h; cases h
+  | some c =>
+    rw [hg] at h
+    simp only at h
+    by_cases hl : c.lv = true
+    · rw [if_pos hl] at h; simp only [xalloc] at h; cases h; exact ⟨rfl, rfl, rfl⟩
+    · rw [if_neg hl] at h
+      cases hs : s.st.setX a v with
+      | none => rw [hs] at h; cases h
+      | some σ' =>
+        rw [hs] at h; cases h
+        obtain ⟨i, hx⟩ := root_tmp_of_not_lv hi hg (by simpa using hl)
+        obtain ⟨e1, e2⟩ := setX_tmp hx hs
+        exact ⟨e1, e2, rfl⟩
+
+theorem xlval2_same (v : Val) (a b : XLoc) (s s' : XS) (x : XLoc) (hi : FlagInv s.st) (h : xlval2 v a b s = .ok (x, s')) :
+    s'.st.vars = s.st.vars ∧ s'.st.csts = s.st.csts ∧ s'.log = s.log := by
+  simp only [xlval2] at h
+  cases hg : s.st.getX a with
+  | none => rw [hg] at h; cases h
+  | some c =>
+    rw [hg] at h
+    simp only at h
+    by_cases hl : c.lv = true
+    · rw [if_pos hl] at h; exact xlval1_same v b s s' x hi h
+    · rw [if_neg hl] at h
+      cases hs : s.st.setX a v with
+      | none => rw [hs] at h; cases h
+      | some σ' =>
+        rw [hs] at h; cases h
+        obtain ⟨i, hx⟩ := root_tmp_of_not_lv hi hg (by simpa using hl)
+        obtain ⟨e1, e2⟩ := setX_tmp hx hs
+        exact ⟨e1, e2, rfl⟩
+
+/-- The seeded change C05-m7 as a combinator (`if (!a0.lvalue() || !a1.lvalue()) { a0.swap(v); return a0; }`): NOT used
+by the model; kept to show, next to `reuse_only_temporaries`, what the theorem excludes. -/
+def xlval2Merged (v : Val) (a b : XLoc) : XM XLoc := fun s =>
+  match s.st.getX a, s.st.getX b with
+  | some ca, some cb =>
+    if !ca.lv || !cb.lv then
+      match s.st.setX a v with
+      | some σ' => .ok (a, { s with st := σ' })
+      | none => .haz .oob
+    else xalloc v s
+  | _, _ => .haz .oob
+
 theorem pres_bindArgs {ev : XExpr → XM XLoc} (hev : ∀ e, Pres (ev e)) : ∀ as k callee, Pres (bindArgs ev as k callee)
   | [], k, callee => by simp only [bindArgs]; exact Pres.pure _
   | a :: as, k, callee => by
@@ -588,6 +669,7 @@ def fpE (F : List XFun) : Nat → XExpr → List Loc
     | .setItem r _ a => recvRoot r ++ fpE F fuel r ++ fpE F fuel a
     | .tab n a => fpE F fuel n ++ fpE F fuel a
     | .tup args => (args.map (fpE F fuel)).flatten
+    | .bi _ args => (args.map (fpE F fuel)).flatten
     | .call f args =>
       (args.map (fpE F fuel)).flatten ++
         (match F[f]? with
@@ -787,6 +869,44 @@ theorem logs_tupStep {A : List Loc} {ev : XExpr → XM XLoc} (hp : ∀ e, Pres (
       · exact Logs.silent (silent_fail _)
       · exact Logs.bind' (Logs.silent (silent_takeArg x)) (pres_takeArg x)
           (fun v => logs_tupStep hp as _ (fun a' ha' => hl a' (List.mem_cons_of_mem _ ha')))
+
+theorem logs_biArgs {A : List Loc} {ev : XExpr → XM XLoc} (hp : ∀ e, Pres (ev e)) :
+    ∀ as acc, (∀ a ∈ as, Logs A (ev a)) → Logs A (biArgs ev as acc)
+  | [], acc, _ => by simp only [biArgs]; exact Logs.silent (silent_pure _)
+  | a :: as, acc, hl => by
+    simp only [biArgs]
+    refine Logs.bind' (hl a (List.mem_cons_self ..)) (hp a) (fun x => Logs.bind' (Logs.silent silent_logLen) pres_logLen (fun n => ?_))
+    exact logs_biArgs hp as _ (fun a' ha' => hl a' (List.mem_cons_of_mem _ ha'))
+
+theorem silent_biHeld : ∀ xn s b s', biHeld xn s = .ok (b, s') → s'.log = s.log
+  | [], s, b, s', h => by simp only [biHeld] at h; exact silent_pure _ s b s' h
+  | (x, n) :: rest, s, b, s', h => by
+    simp only [biHeld, XM.bind] at h
+    split at h
+    · rename_i u s1 h1
+      rw [silent_biHeld rest s1 b s' h, silent_checkHeld x n s u s1 h1]
+    all_goals cases h
+
+theorem silent_xgets : ∀ xs s b s', xgets xs s = .ok (b, s') → s'.log = s.log
+  | [], s, b, s', h => by simp only [xgets] at h; exact silent_pure _ s b s' h
+  | x :: rest, s, b, s', h => by
+    simp only [xgets, XM.bind] at h
+    split at h
+    · rename_i c s1 h1
+      split at h
+      · rename_i vs s2 h2
+        rw [silent_pure _ s2 b s' h, silent_xgets rest s1 vs s2 h2, silent_xget x s c s1 h1]
+      all_goals cases h
+    all_goals cases h
+
+theorem silent_xplaceBi (p : BiPlace) (v : Val) (xs : List XLoc) : ∀ s b s', xplaceBi p v xs s = .ok (b, s') → s'.log = s.log := by
+  unfold xplaceBi
+  split
+  · exact silent_pure _
+  · exact silent_xalloc _
+  · exact silent_xlval1 _ _
+  · exact silent_xlval2 _ _ _
+  · exact silent_fail _
 
 theorem logs_bindArgs {A : List Loc} {ev : XExpr → XM XLoc} (hp : ∀ e, Pres (ev e)) :
     ∀ as k callee, (∀ a ∈ as, Logs A (ev a)) → Logs A (bindArgs ev as k callee)
